@@ -195,6 +195,10 @@ pub assume_specification<T>[ std::mem::replace::<T> ](dest: &mut T, src: T) -> (
 impl<K, V> RecursiveContext<K, V> where K: Hash + Eq + Debug + Clone, V: Debug + Clone {
     pub closed spec fn graph(self) -> SearchGraph<K, V> { self.search_graph }
     pub closed spec fn stk(self) -> Stack { self.stack }
+}
+// (the impl block of the real function asks for `V: PartialEq` since the repair of DESIGN section 6g; the bound is stated
+//  here for every tree - it is satisfied by the only instantiation, Fallible<Solution<I>>)
+impl<K, V> RecursiveContext<K, V> where K: Hash + Eq + Debug + Clone, V: Debug + Clone + PartialEq {
 
 // ------------------------------------------------------------- real function
 //@FN file=chalk-recursive/src/fixed_point.rs within="^impl<K, V> RecursiveContext<K, V> where" fn=solve_new_subgoal contract=fixed_point loopinv=fp_loop fnattrs="#[verifier::exec_allows_no_decreases_clause]" path=RecursiveContext::solve_new_subgoal
@@ -209,6 +213,9 @@ impl<K, V> RecursiveContext<K, V> where K: Hash + Eq + Debug + Clone, V: Debug +
         dfn.index < usize::MAX,
         // the caller's callback may be called
         should_continue.requires(()),
+        // `==` on answers is structural equality (derived PartialEq)
+        forall|a: V, b: V, r: bool| call_ensures(<V as PartialEq>::ne, (&a, &b), r) ==> r == (a != b),
+        forall|a: V, b: V, r: bool| call_ensures(<V as PartialEq>::eq, (&a, &b), r) ==> r == (a == b),
     ensures
         final(self).graph().history().len() > 0,
         final(self).graph().history().last().goal == *canonical_goal,
@@ -219,6 +226,12 @@ impl<K, V> RecursiveContext<K, V> where K: Hash + Eq + Debug + Clone, V: Debug +
             || solver_stuff.spec_reached_fixed_point(final(self).graph().history().last().assumed, final(self).graph().history().last().produced),
         // ... and the cycle information handed to the caller is that of the same iteration
         r == final(self).graph().history().last().minimums,
+        // (G) C10: if the loop stops although the answer still CHANGED in the last iteration (it is allowed to, once the
+        // answer is ambiguous), whatever the other members of the cycle computed was based on the previous answer:
+        // nothing above the goal's own node may be left in the graph (where solve_goal would make it permanent)
+        final(self).graph().history().last().flags_after[depth.depth as int]
+            && final(self).graph().history().last().assumed != final(self).graph().history().last().produced
+            ==> final(self).graph().nodes().len() == dfn.index + 1,
         // the goal is still where it was
         final(self).graph().spec_lookup(*canonical_goal) == Some(dfn),
         (dfn.index as int) < final(self).graph().nodes().len(),
@@ -233,6 +246,8 @@ impl<K, V> RecursiveContext<K, V> where K: Hash + Eq + Debug + Clone, V: Debug +
                 (depth.depth as int) < self.stk().flags().len(),
                 dfn.index < usize::MAX,
                 should_continue.requires(()),
+                forall|a: V, b: V, r: bool| call_ensures(<V as PartialEq>::ne, (&a, &b), r) ==> r == (a != b),
+                forall|a: V, b: V, r: bool| call_ensures(<V as PartialEq>::eq, (&a, &b), r) ==> r == (a == b),
                 self.graph().nodes()[dfn.index as int].goal == old(self).graph().nodes()[dfn.index as int].goal,
 //@END
 
